@@ -20,6 +20,7 @@ import (
 	"github.com/logrange/logrange/pkg/model"
 	"github.com/logrange/logrange/pkg/model/tag"
 	"github.com/logrange/range/pkg/records"
+	"math"
 )
 
 type (
@@ -46,7 +47,9 @@ func newFIterator(it model.Iterator, wExp *lql.Expression, timeRange *model.Time
 	if timeRange != nil {
 		fit.tmRange = *timeRange
 	} else {
-		fit.tmRange = model.TimeRange{model.MinTimestamp, model.MaxTimestamp}
+		// no RANGE: every timestamp is in range (model.MinTimestamp is not the smallest int64; the open RANGE bounds
+		// use math.MinInt64 / math.MaxInt64 as well)
+		fit.tmRange = model.TimeRange{MinTs: math.MinInt64, MaxTs: math.MaxInt64}
 	}
 	return fit, nil
 }
